@@ -307,6 +307,13 @@ def fixed_corpus():
     out.append(Def([L('regex', 'or(?-u:\\b)|\\|\\|?', prio=3), L('regex', '[a-z]+'), L('skip', ' +'), L('regex', '//[^\\n]*(?:\\n|$)')],
                    origin='fixed:look-alt2'))
     out.append(Def([L('regex', 'or(?-u:\\b)|\\|\\|?', prio=3), L('regex', '[a-z]+'), L('skip', ' +')], origin='fixed:look-alt3'))
+    # a late-accept state with a self edge (a negated word boundary after a repetition): the fast loop runs in a state
+    # that also records a match one byte late
+    out.append(Def([L('regex', '[0-9]+(?-u:\\B)'), L('regex', '[a-z]+'), L('skip', ' '), L('regex', '[a-z]+(?-u:\\B)[0-9]', prio=9)], origin='fixed:look-loop'))
+    # a non-ASCII token whose default priority (2 x byte length) lies above an overlapping regex with an explicit priority
+    # between 2 x chars and 2 x bytes: the winner must not depend on the utf8 mode
+    out.append(Def([L('token', 'é'), L('regex', '[a-zà-ÿ]+', prio=3), L('token', '日本'), L('regex', '[一-龯]+', prio=7), L('skip', ' ')],
+                   origin='fixed:modeprio'))
     # the same text matched by two patterns, one of them only in some contexts, at different priorities
     out.append(Def([L('regex', '[a-z]+'), L('regex', 'end$', prio=100), L('token', 'a', prio=3), L('regex', 'a(?-u:\\b)', prio=10), L('skip', ' ')],
                    origin='fixed:look-prio'))
